@@ -39,8 +39,8 @@ def judge(text: str):
 def shard(args):
     if args[0] == "after-activity":
         return after_activity_shard(args)
-    if args[0] == "python -O":
-        return par.in_interpreter(["-O"], "mc.props.c01", "optimised_child", args[1])
+    if args[0] in INTERPRETERS:
+        return par.in_interpreter(INTERPRETERS[args[0]], "mc.props.c01", "optimised_child", (args[1], args[0]))
     country, tier = args
     part = par.Part()
     W = alphabet.wide(thorough=(tier == "thorough"))
@@ -122,30 +122,43 @@ def after_activity_shard(args):
     return part.done()
 
 
-def optimised_child(tier):
-    """Runs inside ``python -O``: check pairs, small-alphabet single edits and lengths per country."""
+INTERPRETERS = {"python -O": ["-O"], "python -W error": ["-W", "error"]}
+
+
+def spelled(base):
+    yield ("spelling:lower", base.lower())
+    yield ("spelling:printed-lower", " ".join(base[i:i + 4] for i in range(0, len(base), 4)).lower())
+    yield ("spelling:mixed", base[:6] + base[6:].lower())
+
+
+def optimised_child(arg):
+    """Runs inside a brand-new interpreter started with other options (``python -O``: asserts are
+    compiled away; ``python -W error``: every warning is an exception): check pairs, small-alphabet
+    single edits, lengths and lower-case / printed spellings per country."""
+    tier, label = arg if isinstance(arg, tuple) else (arg, "python -O")
     part = par.Part()
     small = ["0", "5", "A", "Z", "a", "-", " ", "٣"]
     for country in sorted(reg.countries()):
         for filler, base in bases.base_ibans(country, ["distinct"]):
             for gen in (families.iban_checkpairs(base), families.single_edits(base, small),
-                        families.iban_lengths(base)):
+                        families.iban_lengths(base), spelled(base)):
                 for fam, text in gen:
-                    part.count(("-O", text), nontrivial=(text != base))
+                    part.count((label, text), nontrivial=(text != base))
                     ok, sig, exp, obs = judge(text)
                     if not ok:
-                        part.violation(f"{sig} [{fam}, python -O]", {"kind": "iban_text", "text": text,
-                                       "how": f"{fam} from base {base}, python -O", "interpreter": "-O"},
+                        part.violation(f"{sig} [{fam}, {label}]", {"kind": "iban_text", "text": text,
+                                       "how": f"{fam} from base {base}, {label}", "interpreter": label},
                                        exp, obs)
     part.stat("optimised_interpreter_runs")
     return part.done()
 
 
 def replay(case: dict) -> dict:
-    if case.get("interpreter") == "-O":
-        part = par.in_interpreter(["-O"], "mc.props.c01", "optimised_child", "quick")
+    if case.get("interpreter"):
+        label = "python -O" if case["interpreter"] == "-O" else case["interpreter"]
+        part = par.in_interpreter(INTERPRETERS[label], "mc.props.c01", "optimised_child", ("quick", label))
         hit = [v for v in part["violations"] if v["case"]["text"] == case["text"]]
-        return {"ok": not hit, "observed": hit[0]["observed"] if hit else None, "interpreter": "python -O"}
+        return {"ok": not hit, "observed": hit[0]["observed"] if hit else None, "interpreter": label}
     ok, sig, exp, obs = judge(case["text"])
     return {"ok": ok, "signature": sig, "expected": exp, "observed": obs}
 
@@ -153,7 +166,7 @@ def replay(case: dict) -> dict:
 def main(tier: str) -> int:
     run = report.Run(PID, tier, "exploration", RULE)
     countries = sorted(reg.countries())
-    par.run_shards(run, shard, [("after-activity", tier), ("python -O", tier)] + [(c, tier) for c in countries])
+    par.run_shards(run, shard, [("after-activity", tier)] + [(lb, tier) for lb in INTERPRETERS] + [(c, tier) for c in countries])
     run.extra.update({
         "deviation_bound_completed": ("2 substitutions over W2 (bases distinct, letters) and "
                                       "1 edit over W" if tier == "thorough" else "1 edit over W"),
